@@ -387,6 +387,14 @@ func runLogin(tr *Tracer, rng *mrand.Rand, scn *loginScn) {
 	if scn.Flow == "plain" {
 		cfg.Encrypt = 0
 	}
+	// history of the configuration object: every fourth encrypted scenario uses a LoginConfig that has been
+	// through a plain login before (an application that falls back and then switches encryption on again);
+	// what the judged login writes must not depend on it (seeded change C09-n: a cached login record)
+	warmed := false
+	if cfg != nil && scn.Flow != "plain" && scn.Cut%4 == 0 {
+		warmed = true
+		warmLoginConfig(cfg, info)
+	}
 	for i := range scn.RemNames {
 		cfg.RemoteServers = append(cfg.RemoteServers, tds.LoginConfigRemoteServer{Name: scn.RemNames[i], Password: scn.RemPws[i]})
 	}
@@ -396,7 +404,7 @@ func runLogin(tr *Tracer, rng *mrand.Rand, scn *loginScn) {
 	}
 	_ = script
 	tr.Emit(Ev{"ev": "Login", "flow": scn.Flow, "script": scn.Script, "nrem": len(scn.RemNames), "keybits": scn.KeyBits,
-		"noncelen": scn.NonceLen, "pwlen": len(scn.Pw)})
+		"noncelen": scn.NonceLen, "pwlen": len(scn.Pw), "warmcfg": warmed})
 
 	deadline := 400 * time.Millisecond
 	ctx, cancel := context.WithTimeout(context.Background(), deadline)
@@ -585,6 +593,35 @@ func runLogin(tr *Tracer, rng *mrand.Rand, scn *loginScn) {
 		tr.Emit(Ev{"ev": "ReplyEnd", "n": len(cts)})
 	}
 	mc.Close()
+}
+
+// warmLoginConfig sends cfg through a plain login on a scratch connection whose peer never answers (the
+// login gives up with its context), then restores the exported fields the caller had set.
+func warmLoginConfig(cfg *tds.LoginConfig, info *tds.Info) {
+	enc, rem := cfg.Encrypt, cfg.RemoteServers
+	mc := newMemConn()
+	defer mc.Close()
+	conn, err := tds.NewConnWithTransport(context.Background(), mc, info, true)
+	if err != nil {
+		return
+	}
+	ch, err := conn.NewChannel()
+	if err != nil {
+		return
+	}
+	cfg.Encrypt = 0
+	ctx, cancel := context.WithTimeout(context.Background(), 5*time.Millisecond)
+	done := make(chan struct{})
+	go func() {
+		defer func() { recover(); close(done) }()
+		ch.Login(ctx, cfg)
+	}()
+	select {
+	case <-done:
+	case <-time.After(2 * time.Second):
+	}
+	cancel()
+	cfg.Encrypt, cfg.RemoteServers = enc, rem
 }
 
 // runLoginTwice: two encrypted logins on one connection (the server refuses the first after the
